@@ -3,7 +3,7 @@ import json
 
 from rv.core.runner import WL
 from rv.gen import specs as SP
-from rv.model import consoles
+from rv.model import cellref, consoles
 
 ID = "C01"
 LEVEL = "exploration"
@@ -83,7 +83,21 @@ def wl_trees(ctx, rng, case_no):
         ctx.count("mon.render")
         if wider:
             ctx.count("mon.render_with_options_narrower_than_console")
-        line_widths, lines = SP.render_lines_cells(console, obj, console.options.update(width=W) if wider else None)
+        via_print = wider and rng.random() < 0.4
+        if via_print:
+            # the documented way to give a renderable fewer cells than the console has: print(..., width=W) - with or
+            # without a style for the whole print; print crops at the CONSOLE's width only, so every line must fit W
+            from rv.model import sgr
+            ctx.count("mon.render_through_print_width")
+            pstyle = rng.choice([None, None, "bold", "on blue", "none"])
+            console.print(obj, width=W, style=pstyle)
+            out = sgr.decode(console.file.getvalue()).text
+            lines = out.split("\n")
+            if lines and lines[-1] == "":
+                lines.pop()
+            line_widths = [cellref.width(l) for l in lines]
+        else:
+            line_widths, lines = SP.render_lines_cells(console, obj, console.options.update(width=W) if wider else None)
         ctx.count("mon.line_width", len(line_widths))
         worst = max(line_widths or [0])
         ctx.hist("width_minus_m", min(W - m, 10))
@@ -92,7 +106,7 @@ def wl_trees(ctx, rng, case_no):
             feats = features(spec)
             mech = "line-wider-than-available:" + ("+".join(feats) if feats else "top=%s" % spec["k"])
             ctx.violation(mech, {"spec": spec, "width": W, "structural_min": m, "line": lines[i],
-                                 "line_cells": worst, "legacy_windows": legacy, "ascii_only": ascii_only, "console_wider_than_options_by": wider,
+                                 "line_cells": worst, "legacy_windows": legacy, "ascii_only": ascii_only, "console_wider_than_options_by": wider, "through_print(width=W)": bool(via_print),
                                  "same_object_rendered_before_at": [w for w in widths[:widths.index(W)]] if reuse else None})
         sig = (json.dumps(spec, sort_keys=True, ensure_ascii=False, default=str), W, legacy, ascii_only)
         ctx.case_done(sig, d >= 2 and (worst >= W or len(lines) > 3),
